@@ -9,7 +9,7 @@ VARIABLES l, viol, drift, nchk
 tvars == <<vars, l, viol, drift, nchk>>
 E == Rec[l]
 Has(r, f) == f \in DOMAIN r
-Note(cond, seq, tag) == IF cond THEN seq ELSE Append(seq, <<l, tag>>)
+Note(cond, seq, tag) == IF cond \/ Len(seq) >= 200 THEN seq ELSE Append(seq, <<l, tag>>)
 TInit == /\ l = 1 /\ viol = <<>> /\ drift = <<>> /\ nchk = 0
          /\ imgLen = 0 /\ flushed = 0 /\ idx = 0 /\ start = 0 /\ fileHi = 0 /\ fpos = 0
          /\ lastGrow = [off |-> 0, len |-> 0] /\ nops = 0
